@@ -69,8 +69,9 @@ impl Exec {
         continue;
       }
       if h["t"] == "id" {
-        let i = h["i"].as_u64().unwrap() as usize - 1;
-        if d.slots[i].0 == 'D' {
+        // a handle whose id points outside the table is kept: reading it back is what exposes it
+        let i = (h["i"].as_u64().unwrap() as usize).wrapping_sub(1);
+        if d.slots.get(i).is_some_and(|s| s.0 == 'D') {
           continue;
         }
       }
